@@ -92,21 +92,21 @@ theorem pinv_clearCaches (cfg : Cfg) (fs : FS) (w : WS) (h : PInv cfg fs w) :
 
 /-! ### UpdateFile -/
 
-theorem updateFile_eq (cfg : Cfg) (σ : List String) (fs : FS) (w : WS) (path : String) (c : Contrib) :
-    updateFile cfg σ fs w path c =
+theorem updateFile_eq (cfg : Cfg) (fs : FS) (w : WS) (path : String) (c : Contrib) :
+    updateFile cfg fs w path c =
       if path = "" then w else
       if w.root = "" then w else
       if !isWorkspaceFile w path then w else
       if includesOf w path ≠ (mkFileIdx path c).includes then
-        refreshIncludeTree cfg σ fs
+        refreshIncludeTree cfg fs
           (clearCaches (updateResolved (putFile cfg w path c (includesOf w path)) path c))
       else clearCaches (updateResolved (putFile cfg w path c (includesOf w path)) path c) := rfl
 
-theorem updateFile_ok (cfg : Cfg) (σ : List String) (fs0 fsd fsr : FS) (w : WS) (p : String)
+theorem updateFile_ok (cfg : Cfg) (fs0 fsd fsr : FS) (w : WS) (p : String)
     (c : Contrib) (h : WInv cfg fs0 w) (hok : fsOk fsd = true)
     (hp : fsd.get p = some c) (hfsd : ∀ y, y ≠ p → fsd.get y = fs0.get y)
     (hfsr : ∀ y, y ≠ p → fsr.get y = fsd.get y) :
-    WInv cfg fsd (updateFile cfg σ fsr w p c) ∧ (updateFile cfg σ fsr w p c).root = w.root := by
+    WInv cfg fsd (updateFile cfg fsr w p c) ∧ (updateFile cfg fsr w p c).root = w.root := by
   obtain ⟨hpne, hcok⟩ := fsOk_get fsd hok p c hp
   rw [updateFile_eq]
   simp only [hpne, if_false, h.pinv.root_ne]
@@ -252,7 +252,7 @@ theorem updateFile_ok (cfg : Cfg) (σ : List String) (fs0 fsd fsr : FS) (w : WS)
         subst hqp
         rw [hroot4]
         exact reachS_target_indep hsucc4 (reach_fs_to_G cfg fs0 w h q hpreach0)
-      have := refresh_ok cfg σ fsr fsd w4 hok hpinv4 hnone4 hag hkeep
+      have := refresh_ok cfg fsr fsd w4 hok hpinv4 hnone4 hag hkeep
       exact ⟨⟨this.pinv, this.closed, cacheOk_of_none _ this.none⟩, this.root.trans hroot4⟩
 
 /-! ### the getters -/
